@@ -8,9 +8,12 @@ package benchfmt
 import (
 	"bytes"
 	"encoding/json"
+	"fmt"
 	"math"
+	"math/rand"
 	"os"
 	"strconv"
+	"strings"
 	"testing"
 	"unicode"
 	"unicode/utf8"
@@ -215,4 +218,248 @@ func verifRefParts(n []byte) (base []byte, parts [][]byte) {
 		parts = append(parts, gomax)
 	}
 	return
+}
+
+
+// ---------------------------------------------------------------------------
+// Bounded stand-ins (C01, C02)
+
+type verifRec struct {
+	name   string
+	iters  int
+	vals   []string // "value unit" as written
+	cfg    map[string]string
+	isUnit bool
+	unit   [3]string // OrigUnit, Key, Value
+}
+
+func verifWritten(v Value) string {
+	if v.OrigUnit != "" {
+		return fmt.Sprintf("%v %s", v.OrigValue, v.OrigUnit)
+	}
+	return fmt.Sprintf("%v %s", v.Value, v.Unit)
+}
+
+func verifSummarise(rec Record) (verifRec, bool) {
+	switch rec := rec.(type) {
+	case *Result:
+		r := verifRec{name: string(rec.Name), iters: rec.Iters, cfg: map[string]string{}}
+		for _, v := range rec.Values {
+			r.vals = append(r.vals, verifWritten(v))
+		}
+		for _, c := range rec.Config {
+			if c.File {
+				r.cfg[c.Key] = string(c.Value)
+			}
+		}
+		return r, true
+	case *UnitMetadata:
+		return verifRec{isUnit: true, unit: [3]string{rec.OrigUnit, rec.Key, rec.Value}}, true
+	}
+	return verifRec{}, false
+}
+
+func verifSameRec(a, b verifRec) bool {
+	if a.isUnit != b.isUnit || a.unit != b.unit || a.name != b.name || a.iters != b.iters || len(a.vals) != len(b.vals) || len(a.cfg) != len(b.cfg) {
+		return false
+	}
+	for i := range a.vals {
+		if a.vals[i] != b.vals[i] {
+			return false
+		}
+	}
+	for k, v := range a.cfg {
+		if w, ok := b.cfg[k]; !ok || w != v {
+			return false
+		}
+	}
+	return true
+}
+
+func verifReadAll(text string) ([]verifRec, error) {
+	r := NewReader(strings.NewReader(text), "t")
+	var out []verifRec
+	for r.Scan() {
+		switch rec := r.Result().(type) {
+		case *SyntaxError:
+			return nil, rec
+		default:
+			if s, ok := verifSummarise(rec); ok {
+				out = append(out, s)
+			}
+		}
+	}
+	return out, r.Err()
+}
+
+func verifRoundTrip(recs []Record) error {
+	var want []verifRec
+	var buf bytes.Buffer
+	w := NewWriter(&buf)
+	for _, rec := range recs {
+		if s, ok := verifSummarise(rec); ok {
+			want = append(want, s)
+		}
+		if err := w.Write(rec); err != nil {
+			return err
+		}
+	}
+	got, err := verifReadAll(buf.String())
+	if err != nil {
+		return fmt.Errorf("reading back %q: %v", buf.String(), err)
+	}
+	if len(got) != len(want) {
+		return fmt.Errorf("wrote %d records, read back %d from %q", len(want), len(got), buf.String())
+	}
+	for i := range want {
+		if !verifSameRec(want[i], got[i]) {
+			return fmt.Errorf("record %d: wrote %+v, read back %+v (text %q)", i, want[i], got[i], buf.String())
+		}
+	}
+	return nil
+}
+
+func TestVerifBounded(t *testing.T) {
+	which := os.Getenv("VERIF_BOUNDED")
+	tier := os.Getenv("VERIF_TIER")
+	seed, _ := strconv.ParseInt(os.Getenv("VERIF_SEED"), 10, 64)
+	if which != "roundtrip" {
+		t.Skip("unknown bounded check " + which)
+	}
+	n, fails := 0, 0
+	bad := func(err error) {
+		fails++
+		if fails <= 10 {
+			t.Errorf("REPLAY-FAIL %v", err)
+		}
+	}
+	// 1. exhaustive two- and three-step configuration histories over keys a,b,c:
+	//    each key is absent, file (values 1/2) or internal in each step
+	states := []string{"-", "f1", "f2", "i1"}
+	mk := func(st [3]string, name string) *Result {
+		r := &Result{Name: Name(name), Iters: 1, Values: []Value{{Value: 1, Unit: "x"}}}
+		for i, k := range []string{"a", "b", "c"} {
+			switch st[i] {
+			case "f1":
+				r.Config = append(r.Config, Config{Key: k, Value: []byte("1"), File: true})
+			case "f2":
+				r.Config = append(r.Config, Config{Key: k, Value: []byte("2"), File: true})
+			case "i1":
+				r.Config = append(r.Config, Config{Key: k, Value: []byte("1"), File: false})
+			}
+		}
+		return r
+	}
+	var all [][3]string
+	for _, a := range states {
+		for _, b := range states {
+			for _, c := range states {
+				all = append(all, [3]string{a, b, c})
+			}
+		}
+	}
+	for _, s1 := range all {
+		for _, s2 := range all {
+			n++
+			if err := verifRoundTrip([]Record{mk(s1, "X"), mk(s2, "Y")}); err != nil {
+				bad(fmt.Errorf("history %v -> %v: %v", s1, s2, err))
+			}
+		}
+	}
+	third := all
+	if tier != "thorough" {
+		third = nil
+		for i := 0; i < len(all); i += 5 {
+			third = append(third, all[i])
+		}
+	}
+	for i, s1 := range all {
+		if tier != "thorough" && i%3 != 0 {
+			continue
+		}
+		for _, s2 := range all {
+			for _, s3 := range third {
+				n++
+				if err := verifRoundTrip([]Record{mk(s1, "X"), mk(s2, "Y"), mk(s3, "Z")}); err != nil {
+					bad(fmt.Errorf("history %v -> %v -> %v: %v", s1, s2, s3, err))
+				}
+			}
+		}
+	}
+	// 2. measurements: every value (incl. 0, infinities, NaN, subnormals) in plain and rescaled units keeps value and unit as written
+	vals := []float64{0, 1, 2.5, -3, 1e-320, 5e-324, 1e300, math.Inf(1), math.Inf(-1), math.NaN(), 123456789.123456789, 0.1}
+	for _, v := range vals {
+		for _, u := range []string{"ns/op", "MB/s", "B/op", "x", "heap-MB/MB", "ns"} {
+			n++
+			text := fmt.Sprintf("BenchmarkV 1 %v %s\n", v, u)
+			got, err := verifReadAll(text)
+			if err != nil || len(got) != 1 {
+				bad(fmt.Errorf("reading %q: %v %v", text, got, err))
+				continue
+			}
+			// parse -> write -> parse
+			r := NewReader(strings.NewReader(text), "t")
+			var recs []Record
+			for r.Scan() {
+				if res, ok := r.Result().(*Result); ok {
+					recs = append(recs, res.Clone())
+				}
+			}
+			if err := verifRoundTrip(recs); err != nil {
+				bad(fmt.Errorf("value %v %s: %v", v, u, err))
+			}
+			if len(recs) == 1 && verifWritten(recs[0].(*Result).Values[0]) != fmt.Sprintf("%v %s", v, u) {
+				bad(fmt.Errorf("value %v %s is read as %q", v, u, verifWritten(recs[0].(*Result).Values[0])))
+			}
+		}
+	}
+	// 3. seeded random streams: text -> records -> text -> records, and API edits in between
+	rng := rand.New(rand.NewSource(seed + 7))
+	streams := 300
+	if tier == "thorough" {
+		streams = 20000
+	}
+	keys := []string{"goos", "pkg", "k", "note", "a-b", "x1"}
+	for s := 0; s < streams; s++ {
+		var sb strings.Builder
+		lines := 1 + rng.Intn(12)
+		for l := 0; l < lines; l++ {
+			switch rng.Intn(6) {
+			case 0, 1:
+				fmt.Fprintf(&sb, "%s: %s\n", keys[rng.Intn(len(keys))], []string{"1", "two words", "v", "x:y", "\u00e9"}[rng.Intn(5)])
+			case 2:
+				fmt.Fprintf(&sb, "%s:\n", keys[rng.Intn(len(keys))])
+			case 3:
+				fmt.Fprintf(&sb, "Unit %s better=%s\n", []string{"ns/op", "B/op", "x"}[rng.Intn(3)], []string{"lower", "higher"}[rng.Intn(2)])
+			default:
+				fmt.Fprintf(&sb, "BenchmarkN%d/k=%d-%d %d %v ns/op %d B/op\n", rng.Intn(3), rng.Intn(3), 1+rng.Intn(8), 1+rng.Intn(100), rng.Float64()*100, rng.Intn(1000))
+			}
+		}
+		r := new(Reader)
+		r.Reset(strings.NewReader(sb.String()), "t", "tool", "internal")
+		var recs []Record
+		dupUnit := false
+		for r.Scan() {
+			switch rec := r.Result().(type) {
+			case *Result:
+				c := rec.Clone()
+				if rng.Intn(4) == 0 { // edit through the API
+					c.SetConfig(keys[rng.Intn(len(keys))], []string{"", "internal"}[rng.Intn(2)])
+				}
+				recs = append(recs, c)
+			case *UnitMetadata:
+				recs = append(recs, rec)
+			case *SyntaxError:
+				dupUnit = true // conflicting unit metadata: not a stream the writer is asked to reproduce
+			}
+		}
+		if dupUnit {
+			continue
+		}
+		n++
+		if err := verifRoundTrip(recs); err != nil {
+			bad(fmt.Errorf("stream %q: %v", sb.String(), err))
+		}
+	}
+	fmt.Printf("BOUNDED-RESULT {\"cases\": %d, \"failures\": %d, \"bound\": \"all 2-step and (quick: a third of the) 3-step configuration histories of 3 keys x {absent, file=1, file=2, internal}; 12 values x 6 units as text; %d seeded random streams with API edits (seed %d)\", \"exhaustive\": false}\n", n, fails, streams, seed)
 }
